@@ -689,6 +689,48 @@ func c19CheckSig(c *fw.C, r *rand.Rand, kp *wallet.KeyPair, want c19OKey, other 
 	if bytes.Equal(sig, ed25519.Sign(want.priv, msg)) {
 		c.Count("signatures_byte_equal_to_independent_signer", 1)
 	}
+	// a sequence of messages through ONE key pair, the way callers really do it: the same message again, a message
+	// written into the buffer of the previous one, a sub-slice of it, an empty message in between, Sign and Signer mixed —
+	// every signature must verify for the bytes that were in the buffer when it was made
+	buf := make([]byte, 64+r.Intn(64))
+	for round := 0; round < 6; round++ {
+		var m []byte
+		switch r.Intn(5) {
+		case 0: // same content again
+			m = buf
+		case 1: // overwritten in place
+			r.Read(buf)
+			m = buf
+		case 2: // one byte changed in place
+			buf[r.Intn(len(buf))] ^= 0x55
+			m = buf
+		case 3: // a prefix of the same backing array
+			r.Read(buf)
+			m = buf[:r.Intn(len(buf))]
+		default:
+			m = []byte{}
+		}
+		snapshot := append([]byte{}, m...)
+		var sg []byte
+		if r.Intn(2) == 0 {
+			sg = kp.Sign(m)
+		} else {
+			sg, _, _, _ = kp.Signer(m)
+		}
+		c.Eval(1)
+		if !bytes.Equal(snapshot, m) {
+			fail("sign-modified-the-message")
+			return
+		}
+		if !ed25519.Verify(want.pub, snapshot, sg) {
+			c.Violation("signature-rejected-by-independent-verifier reused-buffer", map[string]interface{}{"tag": tag, "round": round, "message": hex.EncodeToString(snapshot), "signature": hex.EncodeToString(sg), "pub": hex.EncodeToString(kp.Public)})
+			return
+		}
+		if ok, err := wallet.VerifySignature(kp.Public, snapshot, sg); !ok || err != nil {
+			fail("rejected-under-own-key")
+			return
+		}
+	}
 	c.Count("signatures_checked", 1)
 	c.Distinct("sig/" + tag + "/verifies-own-only")
 }
